@@ -417,6 +417,11 @@ def _float_to_fixed_sites(F, b):
             terms.append(t)
         for e in r.events:
             if e['kind'] == 'call' and not str(e['callee']).endswith(('Ord::min', 'cmp::min', 'Ord::max', 'cmp::max', 'Ord::clamp', 'AsPrimitive::as_', 'ops::Mul::mul', 'PartialOrd::lt', 'PartialOrd::le', 'PartialOrd::gt', 'PartialOrd::ge')):
+                res = e.get('result')
+                if isinstance(res, tuple) and res and res[0] == 'call':
+                    inl = rules.inline_pure(F, ('call', res[1], res[2], None))
+                    if not (isinstance(inl, tuple) and inl and inl[0] == 'call' and inl[1] == res[1]):
+                        continue          # a crate-local helper that inlines to plain terms (a hand-written min / max / clamp): judged where its result goes
                 terms += list(e.get('args_val', e['args']))
         n0 = len(out)
         for t in terms:
